@@ -82,6 +82,15 @@ func profileFor(prop string) *Profile {
 	}
 	// the multi-token dimension is orthogonal to every property: all profiles spend a minority of their runs on it
 	p.MultiToken = 0.12
+	// likewise calls to the module-reserved service (served synchronously inside the transaction)
+	if p.ModSvcCalls == 0 {
+		p.ModSvcCalls = 0.06
+	}
+	if v := os.Getenv("VERIF_MODSVC"); v != "" { // experiments only: the share of runs in which consumers call the module-reserved service
+		if f, err := strconv.ParseFloat(v, 64); err == nil {
+			p.ModSvcCalls = f
+		}
+	}
 	if v := os.Getenv("VERIF_MULTI"); v != "" { // experiments only: the share of multi-token runs
 		if f, err := strconv.ParseFloat(v, 64); err == nil {
 			p.MultiToken = f
